@@ -24,7 +24,7 @@ META = dict(
 
 SIZES = dict(xyz=[1, 3, 1000], pdb=[1, 3, 1000, 12000], mol2=[1, 3, 1000], sdf=[1, 3, 100, 999], poscar=[1, 3, 12],
              cube=[1, 2], fcidump=[1, 2])
-VARIANTS = dict(xyz=["default", "columns"], pdb=["default", "full", "bonds"], mol2=["default", "full", "bonds"],
+VARIANTS = dict(xyz=["default", "columns"], pdb=["default", "full", "bonds", "star"], mol2=["default", "full", "bonds"],
                 sdf=["default", "bonds"], poscar=["lower"], cube=["111", "234", "117"], fcidump=["sym"])
 
 
@@ -35,9 +35,13 @@ def jobs(tier, prop="C02", M="harness.rt"):
             for n in SIZES[fmt] + ([3] if fmt == "fcidump" and tier == "thorough" else []):
                 if n >= 100 and variant not in ("default", "bonds", "lower"):
                     continue
+                if variant == "star" and n != 3:
+                    continue
                 for policy in ("fit", "touch"):
                     if policy == "touch" and (n > 3 or fmt in ("fcidump",)):
                         continue
+                    if variant == "star":
+                        n = 14
                     out.append(job(prop, f"roundtrip[{fmt},{variant},n={n},{policy}]", M, "h_roundtrip",
                                    dict(fmt=fmt, natom=n, variant=variant, prop=prop, policy=policy),
                                    budget_s=400 if tier == "quick" else 3000, max_validate=4 if n < 100 else 1))
